@@ -282,7 +282,22 @@ func run(sc Scenario, dir string) world.Verdict {
 					}
 				}
 			}()
-			<-allDone
+			// sleepers (a start-up delay of up to an hour, a stalled execution client) end in virtual
+			// time; a loop that ignores the stop request altogether never does — then the bubble can
+			// never end and the verdict has to be delivered the hard way
+			select {
+			case <-allDone:
+			case <-time.After(3 * time.Hour):
+				mu.Lock()
+				never := []string{}
+				for _, r := range recs {
+					if !r.returned {
+						never = append(never, r.name)
+					}
+				}
+				mu.Unlock()
+				world.Emergency("C13", "all-loops-virtual-time", "C13/stop-ignored", sc, "%v never returned after the stop request (3 virtual hours later they are still running)", never)
+			}
 			sig := "C13/stop-not-prompt"
 			if len(late) == 1 && late[0] == "AggregationLoop" && sc.GenesisOffsetS > 0 {
 				sig = "C13/stop-not-prompt/start-up-delay-not-interruptible"
